@@ -117,6 +117,46 @@ def flag_getters(ctx):
             out.append(ok(g))
         else:
             out.append(bad(g, "ReFlags::%s returns %s, expected the field %s" % (g, sorted(rs), f), b.loc()))
+    # ... and the fields are what the flag string said: written only while it is parsed (ReFlags::new); nobody else
+    # assigns a field, replaces a stored ReFlags or takes it mutably
+    RF = "re_flags::ReFlags"
+    writers = {}
+    n_seen = 0
+    for b in ctx.f.bodies:
+        if b.from_expansion:
+            continue
+        home = b.path.split("::{closure")[0] == RF + "::new"
+        for bi, blk in enumerate(b.blocks):
+            for st in blk["stmts"]:
+                if st["k"] != "assign":
+                    continue
+                def touches(pl):
+                    pr = pl.get("p") or []
+                    if any(isinstance(e, dict) and e.get("adt") == RF for e in pr):
+                        return True
+                    fs = [e for e in pr if isinstance(e, dict) and "f" in e]
+                    if fs and pr and pr[-1] is fs[-1] and fs[-1].get("ty") == RF:
+                        return True
+                    return False
+                w = None
+                if touches(st["place"]):
+                    w = "assigns"
+                rv = st["rv"]
+                if rv.get("k") in ("ref", "rawptr") and rv.get("mut"):
+                    pl = rv["place"]
+                    if touches(pl) or (not (pl.get("p") or []) and b.locals[pl["l"]]["ty"] == RF):
+                        w = "borrows mutably"
+                if w:
+                    n_seen += 1
+                    if not home:
+                        writers.setdefault(b.path, (w, b.loc(bi)))
+    if not n_seen:
+        out.append(bad("written-only-when-parsed", "no write to a field of ReFlags was found at all, not even in ReFlags::new", None))
+    elif writers:
+        p0 = sorted(writers)[0]
+        out.append(bad("written-only-when-parsed", "%s %s the flags outside ReFlags::new (also: %s): what the compiler and the matcher consult is then not what the caller's flag string said" % (p0, writers[p0][0], sorted(writers)[1:3]), writers[p0][1]))
+    else:
+        out.append(ok("written-only-when-parsed"))
     return out
 
 
@@ -521,6 +561,23 @@ def x_strip_state(ctx):
     return res
 
 
+def _x_flag_readers(ctx):
+    """who asks for flag x: only compile() (the pre-pass that strips the pattern).  The parser itself never knows the
+    flag - inside a class, in an escape, between the braces of \\p{..} white space is what it is without x."""
+    out = []
+    sites = ctx.cg.sites.get("re_flags::ReFlags::is_allow_whitespace", [])
+    callers = sorted({c.path.split("::{closure")[0] for c, bb in sites})
+    extra = [c for c in callers if c != COMPILE]
+    if extra:
+        c0 = next((c, bb) for c, bb in sites if c.path.split("::{closure")[0] == extra[0])
+        out.append(bad("x-read-only-by-the-pre-pass", "flag x is consulted in %s: white space is removed (or treated specially) somewhere else than in the pre-pass of compile(), which deliberately leaves the inside of character classes alone" % extra, c0[0].loc(c0[1])))
+    elif callers:
+        out.append(ok("x-read-only-by-the-pre-pass"))
+    else:
+        out.append(bad("x-read-only-by-the-pre-pass", "nobody consults flag x", None))
+    return out
+
+
 @rule("X-STRIP-GATE", ["C14", "C13", "C03", "C07"], floor=5)
 def x_strip_gate(ctx):
     """The stripping loop runs iff flag x is set and flag q is not, before the parser; its output replaces
@@ -531,7 +588,7 @@ def x_strip_gate(ctx):
     h, _ = _strip_loop(ctx, b)
     if h is None:
         return [missing("whitespace stripping loop in compile()")]
-    out = []
+    out = _x_flag_readers(ctx)
     s_off = sccp(ctx, b, {"ReFlags::is_allow_whitespace": F, "ReFlags::is_literal": F})
     s_on = sccp(ctx, b, {"ReFlags::is_allow_whitespace": T, "ReFlags::is_literal": F})
     s_q = sccp(ctx, b, {"ReFlags::is_allow_whitespace": T, "ReFlags::is_literal": T})
